@@ -160,9 +160,25 @@ class LPUnframe(FnCase):
     def buf(self):
         return Concat(BACC, B_)
 
+    def roles(self):
+        """names of the two locals the invariant talks about, by role: the stream object and the int passed to its seek()"""
+        if not hasattr(self, '_roles'):
+            import ast
+            bio = off = None
+            for n in ast.walk(self.h.node):
+                if isinstance(n, ast.Call) and isinstance(n.func, ast.Attribute) and n.func.attr == 'seek' and isinstance(n.func.value, ast.Name) \
+                        and n.args and isinstance(n.args[0], ast.Name):
+                    bio, off = n.func.value.id, n.args[0].id
+            self._roles = (bio, off)
+        return self._roles
+
     def state(self, L, q):
-        off = self.eng.to_int(q, q.cells[L.scope_lookup('offset')])
-        bio = q.cells[L.scope_lookup('bio')]
+        bio_n, off_n = self.roles()
+        c_off, c_bio = (L.scope_lookup(off_n) if off_n else None), (L.scope_lookup(bio_n) if bio_n else None)
+        if c_off is None or c_bio is None or c_off not in q.cells or c_bio not in q.cells:
+            raise Unsupported('length_prefix.unframe: cannot identify the stream object and the consumed-bytes counter (seek(<counter>)) of the loop')
+        off = self.eng.to_int(q, q.cells[c_off])
+        bio = q.cells[c_bio]
         c = q.heap[bio.oid]
         return off, c[1], c[2]
 
